@@ -324,6 +324,10 @@ RA_ARTIFACTS = {
     "ostree": (["ostree:main"], None),
     "ostree_missing_ref": (["ostree:nope"], None),
     "ostree_then_file_missing": (["x", "ostree:nope"], None),
+    # reference names that cannot lie below refs/heads: whatever rejects them, the call must leave no trace
+    "ostree_empty_ref": (["ostree:"], None),
+    "ostree_abs_ref": (["x", "ostree:/etc/hostname"], None),
+    "ostree_dotdot_ref": (["ostree:../objects", "ostree:a/../main"], None),
     "mixed": (["x", "dir:y", "ostree:main", "file:top.txt"], None),
     "missing_path": (["nope", "x"], None),
     "first_missing_then_collide": (["nope", "x", "y"], ["x/", "y/"]),
